@@ -71,6 +71,10 @@ type Node struct {
 	quorumC  chan *vaa.VAA
 	unsub    func()
 	OwnKey   int
+	// DB is the store this node uses: the world's shared store, or a private instance (fault scenarios)
+	DB       *db.Database
+	private  bool
+	DBClosed bool
 	// Loopbacks the node has sent to itself and that the harness has not delivered yet.
 	Pending []*gossipv1.SignedObservation
 	// input channels of the real Run loop (used by RunNode only)
@@ -94,7 +98,36 @@ type Out struct {
 	Blocked  bool // StepFullQueue: the handler was parked in a channel send
 }
 
+// NewNodePrivateDB is NewNode over a store of its own, which the harness may close (CloseDB) to make every
+// later write and lookup fail with the store's own error.
+func (w *World) NewNodePrivateDB(ownKey int, reqCap int) *Node {
+	d, err := db.VerifOpenInMemory()
+	if err != nil {
+		ev.Broken("in-memory store: %v", err)
+	}
+	return w.newNode(ownKey, reqCap, d)
+}
+
+// CloseDB closes the node's private store: the store-failure fault.
+func (n *Node) CloseDB() {
+	if !n.private {
+		ev.Broken("CloseDB on the shared store")
+	}
+	if !n.DBClosed {
+		n.DBClosed = true
+		n.DB.Close()
+	}
+}
+
 func (w *World) NewNode(ownKey int, reqCap int) *Node {
+	return w.newNode(ownKey, reqCap, nil)
+}
+
+func (w *World) newNode(ownKey int, reqCap int, private *db.Database) *Node {
+	if private != nil {
+		vtime.ResetClock(T0)
+		return w.build(ownKey, reqCap, private, true)
+	}
 	w.nodes++
 	if w.nodes%4000 == 0 {
 		// fresh in-memory store now and then: deleted versions accumulate in the memtable
@@ -110,7 +143,11 @@ func (w *World) NewNode(ownKey int, reqCap int) *Node {
 		ev.Broken("wipe: %v", err)
 	}
 	vtime.ResetClock(T0)
-	n := &Node{W: w, OwnKey: ownKey,
+	return w.build(ownKey, reqCap, w.DB, false)
+}
+
+func (w *World) build(ownKey int, reqCap int, d *db.Database, private bool) *Node {
+	n := &Node{W: w, OwnKey: ownKey, DB: d, private: private,
 		SendC:    make(chan []byte, 4096),
 		ObsvC:    make(chan *gossipv1.SignedObservation, 64),
 		ObsvReqC: make(chan *gossipv1.ObservationRequest, reqCap),
@@ -126,14 +163,20 @@ func (w *World) NewNode(ownKey int, reqCap int) *Node {
 	}()
 	n.unsub = func() { rep.Unsubscribe(sub.ClientId); close(msgC) }
 	n.LockC, n.SetC, n.InjectC, n.SignedInC = make(chan *common.MessagePublication), make(chan *common.GuardianSet), make(chan *vaa.VAA), make(chan *gossipv1.SignedVAAWithQuorum)
-	n.P = processor.NewProcessor(w.Ctx, w.DB,
+	n.P = processor.NewProcessor(w.Ctx, d,
 		n.LockC, n.SetC, n.SendC, n.ObsvC, n.ObsvReqC,
 		n.InjectC, n.SignedInC,
 		keys.Signer{I: ownKey}, n.GST, rep, nil, GovChain, GovAddr)
 	return n
 }
 
-func (n *Node) Close() { n.unsub() }
+func (n *Node) Close() {
+	n.unsub()
+	if n.private && !n.DBClosed {
+		n.DBClosed = true
+		n.DB.Close()
+	}
+}
 
 // StepFullQueue performs a tick while the outbound re-observation request queue is full. The
 // handler runs on its own goroutine; if it has not returned while the harness is idle, its
@@ -266,7 +309,7 @@ func (n *Node) TakeLoopback(i int) *gossipv1.SignedObservation {
 func (n *Node) Store() map[string][]byte {
 	m := map[string][]byte{}
 	for _, k := range n.W.Keys {
-		b, err := n.W.DB.VerifGetRaw(k)
+		b, err := n.DB.VerifGetRaw(k)
 		if err != nil {
 			continue
 		}
